@@ -50,6 +50,7 @@ Amp(e, k) == Z(e.amp[k])
 PartsOf(e) == G2(e.parts)
 SetOf(q) == RangeOf(G1(q))
 NatSet(T, lax) == RangeOf(NatAxes(T, G1(lax)))
+NTs(e) == [i \in 1..Len(e.ts) |-> MaybeConj(reg[e.ts[i]], e.conjs[i])]
 SwapPairs(T, e) == [j \in 1..Len(e.pairs) |-> <<NatSet(T, e.pairs[j][1]), NatSet(T, e.pairs[j][2])>>]
 
 Pre(e) == CASE e.op = "lincomb"   -> SameShape(A(e), B(e))
@@ -66,6 +67,8 @@ Pre(e) == CASE e.op = "lincomb"   -> SameShape(A(e), B(e))
             [] e.op = "diag"      -> PreDiag(A(e))
             [] e.op = "broadcast" -> PreBroadcast(A(e), B(e), G(e.axis))
             [] e.op = "apply_mask" -> PreBroadcast(A(e), B(e), G(e.axis))
+            [] e.op = "swap_charge" -> RangeOf(G1(e.axes)) \subseteq 1..LRank(A(e))
+            [] e.op = "ncon"      -> PreNcon(NTs(e), e.inds)
             [] e.op = "swap_gate" -> \A j \in 1..Len(e.pairs) : RangeOf(G1(e.pairs[j][1])) \cup RangeOf(G1(e.pairs[j][2])) \subseteq 1..LRank(A(e))
 Ref(e) == CASE e.op = "lincomb"   -> LinComb(A(e), Amp(e, 1), B(e), Amp(e, 2))
             [] e.op = "scale"     -> Scale(A(e), Amp(e, 1))
@@ -85,6 +88,8 @@ Ref(e) == CASE e.op = "lincomb"   -> LinComb(A(e), Amp(e, 1), B(e), Amp(e, 2))
             [] e.op = "diag"      -> Diag(A(e))
             [] e.op = "broadcast" -> Broadcast(A(e), B(e), G(e.axis))
             [] e.op = "apply_mask" -> ApplyMask(A(e), B(e), G(e.axis))
+            [] e.op = "swap_charge" -> SwapCharge(A(e), NatSet(A(e), e.axes), e.charge, Tr.ferm)
+            [] e.op = "ncon"      -> Ncon(NTs(e), e.inds, e.swaps, Tr.ferm)
             [] e.op = "swap_gate" -> SwapGate(A(e), SwapPairs(A(e), e), Tr.ferm)
 
 (* inputs on which the outcome is unspecified (6.4 of DESIGN.md): a charge sector with two different dimensions in the operands *)
@@ -108,15 +113,24 @@ RefNum(e) == CASE e.op = "vdot" -> Vdot(MaybeConj(A(e), e.conj[1]), MaybeConj(B(
 IsNum(e) == e.op \in {"vdot", "norm2"}
 IsInit(e) == e.op = "init"
 
+(* an ncon event carries the results obtained with SEVERAL contraction orders: every one must conform to the single order-free reference *)
+NconOK(e) == LET r == Ref(e) IN \A k \in 1..Len(e.results) :
+                 /\ e.results[k].out = "ok" /\ e.results[k].obs.views = "same"
+                 /\ Conforms(N(e.results[k].obs), r) /\ WellFormed(N(e.results[k].obs)) /\ RawOK(e.results[k].obs)
 ResOK(e) == LET o == N(e.obs) IN e.obs.views = "same" /\ Conforms(o, Ref(e)) /\ WellFormed(o) /\ RawOK(e.obs)
 Ok(e) == IF IsInit(e) THEN WellFormed(N(e.obs)) /\ RawOK(e.obs)
          ELSE IF Unspec(e) THEN TRUE
          ELSE IF IsNum(e) THEN (IF PreNum(e) THEN e.out = "ok" /\ Z(e.val) = RefNum(e) ELSE e.out = "YastnError")
+         ELSE IF e.op = "ncon" THEN (IF Pre(e) THEN NconOK(e) ELSE \A k \in 1..Len(e.results) : e.results[k].out = "YastnError")
          ELSE IF Pre(e) THEN e.out = "ok" /\ ResOK(e)
          ELSE e.out = "YastnError"
 Why(e) == IF IsInit(e) THEN <<"initial tensor not well-formed", WfLegs(N(e.obs)), WfGrp(N(e.obs)), WfEnt(N(e.obs)), WfDiag(N(e.obs)), e.obs.raw, e.obs.views>>
           ELSE IF IsNum(e) THEN (IF PreNum(e) THEN <<"number", e.out, IF e.out = "ok" THEN Z(e.val) ELSE CZ, "reference", RefNum(e)>>
                                  ELSE <<"must be rejected with YastnError, got", e.out>>)
+          ELSE IF e.op = "ncon" THEN (IF ~Pre(e) THEN <<"ncon must be rejected">> ELSE
+                 LET r == Ref(e)  k == CHOOSE k \in 1..Len(e.results) : ~(e.results[k].out = "ok" /\ e.results[k].obs.views = "same" /\ Conforms(N(e.results[k].obs), r)
+                                                                           /\ WellFormed(N(e.results[k].obs)) /\ RawOK(e.results[k].obs))
+                 IN <<"contraction order", e.results[k].order, e.results[k].out, IF e.results[k].out = "ok" THEN WhyNot(N(e.results[k].obs), r) ELSE <<>>>>)
           ELSE IF ~Pre(e) THEN <<"must be rejected with YastnError, got", e.out>>
           ELSE IF e.out # "ok" THEN <<"valid operation was not executed:", e.out>>
           ELSE IF e.obs.views # "same" THEN <<"result cannot be read back consistently (C01/C02)", e.obs.views, "is_consistent", e.obs.raw.cons>>
@@ -124,7 +138,7 @@ Why(e) == IF IsInit(e) THEN <<"initial tensor not well-formed", WfLegs(N(e.obs))
           ELSE IF ~WellFormed(N(e.obs)) THEN <<"result not well-formed (C02)", WfLegs(N(e.obs)), WfGrp(N(e.obs)), WfEnt(N(e.obs)), WfDiag(N(e.obs))>>
           ELSE <<"raw block structure / is_consistent / views (C02, C01)", e.obs.raw, e.obs.views>>
 
-Appends(e) == (IsInit(e) \/ (~IsNum(e) /\ e.out = "ok"))
+Appends(e) == (IsInit(e) \/ (~IsNum(e) /\ e.op # "ncon" /\ e.out = "ok"))
 Init == tid \in 1..Len(Traces) /\ l = 1 /\ reg = <<>>
 Step == /\ l \in 1..Len(Ev) /\ (Ok(Ev[l]) = TRUE) /\ l' = l + 1 /\ UNCHANGED tid
         /\ reg' = IF Appends(Ev[l]) THEN Append(reg, N(Ev[l].obs)) ELSE reg
